@@ -102,6 +102,37 @@ where
     .flatten()
 }
 
+/// Recording synthesis together with the foreign-level trace (range checks as emitted, wiring):
+/// one string per executed operation (`trace::field_trace`), and `E`/`P` when the program stopped.
+pub fn trace_of<F, K>(ops: &[Op]) -> Option<Vec<String>>
+where
+    F: CircuitField + FromUniformBytes<64> + Ord,
+    K: CircuitField,
+    MEP: FieldEmulationParams<F, K>,
+{
+    let circuit = ProgCircuit::<F, K>::new(ops.to_vec());
+    let r = catch(|| {
+        let mut cs = ConstraintSystem::<F>::default();
+        let config = ProgCircuit::<F, K>::configure(&mut cs);
+        let cols = config.field_cols();
+        let mut rec = Rec::<F>::default();
+        let constants = cs.constants().clone();
+        let _ = SimpleFloorPlanner::synthesize(&mut rec, &circuit, config, constants);
+        (rec, cols)
+    })
+    .ok()?;
+    let (rec, (xc, zc)) = r;
+    let events = crate::trace::take_events();
+    let outcome = circuit.outcome.borrow().clone();
+    let names: Vec<&str> = ops.iter().map(|o| o.name).collect();
+    let mut v = crate::trace::field_trace(&rec, &events, &names, outcome.outs.len(), &xc, &zc);
+    if let Some(st) = &outcome.stopped {
+        v.pop();
+        v.push(st.clone());
+    }
+    Some(v)
+}
+
 pub struct SetInfo {
     pub name: &'static str,
     pub m: BigUint,
@@ -287,6 +318,34 @@ pub fn gen_cases(s: &SetInfo, ctx: &Ctx) -> Vec<Case> {
                 push("mulk", vec![fop!("in", hex(a)), fop!("in", hex(b)), fop!("mulk", 0, 1, hex(&bv[(i + 3) % bv.len()].1)), fop!("pi", 2)]);
             }
         }
+    }
+
+    // ---- equality / exposure of two different representations of one residue (un-normalised
+    // chains on one or both sides; the operands of assert_equal / is_equal are NOT well-formed)
+    for (i, (_, a)) in bv.iter().enumerate() {
+        if quick && i % 3 != 0 {
+            continue;
+        }
+        let b = &bv[(i + 2) % bv.len()].1;
+        push(
+            "eq-unnorm",
+            vec![
+                fop!("in", hex(a)),
+                fop!("in", hex(b)),
+                fop!("add", 0, 1),      // 2: a + b (lazy)
+                fop!("add", 1, 0),      // 3: b + a (lazy)
+                fop!("asserteq", 2, 3), // both sides un-normalised
+                fop!("sub", 2, 1),      // 4 -> 5: (a + b) - b, lazy on lazy
+                fop!("asserteq", 5, 0), // un-normalised vs well-formed
+                fop!("asserteq", 0, 5), // well-formed vs un-normalised
+                fop!("iseq", 5, 0),
+                fop!("iseq", 2, 0),
+                fop!("assertneq", 2, 5),
+                fop!("pi", 5),
+                fop!("pi", 3),
+            ],
+        );
+        push("eq-unnorm-wrong", vec![fop!("in", hex(a)), fop!("in", hex(b)), fop!("add", 0, 1), fop!("addc", 1, "0x1"), fop!("add", 3, 0), fop!("asserteq", 2, 4)]);
     }
 
     // ---- constants around the mul_by_constant threshold (max_limb_bound / (1000·base))
@@ -482,6 +541,11 @@ where
     let line = format!("{} => {}", outs.join(" | "), verdict);
     ctx.case(&format!("fp:{}", case.kind), true, &format!("fp {} ; {}", s.name, prog), &line);
     ctx.count(&format!("fp-verdict:{verdict}"));
+    // range checks as emitted (bit lengths read back from the real decomposition chip) and wiring
+    match trace_of::<F, K>(&case.ops) {
+        Some(t) => ctx.case(&format!("fpt:{}", case.kind), true, &format!("fpt {} ; {}", s.name, prog), &t.join(" | ")),
+        None => ctx.count("fpt:unavailable"),
+    }
     let key = format!("{}:{}", s.name, prog);
     // oracles
     if r.sat {
